@@ -46,6 +46,7 @@ def check(run):
         C09.release(R)
     yields(R)
     selector(R)
+    selector_owned(R)
     exit_(R)
     closes(R)
 
@@ -127,6 +128,72 @@ def selector(R):
     ok = all_paths_pass(g, normal_succs(mk[0]), cl, [g.exit, g.raise_exit])
     R.ob('C13.selector', 'selector closed on every exit of run()', ok, 'a path leaves run() without selector.close()', func=q,
          node=mk[0].ast)
+
+
+def _releases(R, fq, recv, attr, depth=2):
+    """CFG nodes of method fq (receiver class recv) that close the kernel object held in self.<attr> whenever they run:
+    a direct self.<attr>.close() call, or a call of a method of the same object every path of which does."""
+    g = R.cfg(fq, recv)
+    out = []
+    for n in g.live_nodes():
+        for c in n.calls:
+            if isinstance(c.func, ast.Attribute) and c.func.attr == 'close' and U(c.func.value) == 'self.' + attr:
+                out.append(n)
+            elif depth > 0 and isinstance(c.func, ast.Attribute) and U(c.func.value) == 'self':
+                for t in R.types.call_targets(c, g.ctx):
+                    if t.kind == 'func' and t.func.cls is not None and not t.func.is_generator:
+                        g2, inner = _releases(R, t.func.qual, recv, attr, depth - 1)
+                        if inner and all_paths_pass(g2, [g2.entry], inner, [g2.exit]):
+                            out.append(n)
+    return g, out
+
+
+def selector_owned(R, RID='C13.selector'):
+    """What selector.close() does: a selector class that creates a kernel object in __init__ (select.kqueue() ...) closes
+    it in close() on every path - at most behind an idempotence flag that only close() itself sets, not behind the
+    state of the socket (which run() closes first)."""
+    from .common import path_conditions
+    n_owned = 0
+    for cq in sorted(R.prog.subclasses('selectors.SelectorBase')):
+        init = R.prog.find_method(cq, '__init__')
+        if init is None:
+            continue
+        owned = []
+        for x in own_nodes(init.node):
+            if isinstance(x, ast.Assign) and isinstance(x.value, ast.Call) and U(x.value.func) in ('select.kqueue', 'select.epoll',
+                                                                                                   'select.devpoll'):
+                for t in x.targets:
+                    if isinstance(t, ast.Attribute) and U(t.value) == 'self':
+                        owned.append(t.attr)
+        for attr in owned:
+            n_owned += 1
+            cm = R.prog.find_method(cq, 'close')
+            need(cm is not None, '%s has no close()' % cq)
+            g, rel = _releases(R, cm.qual, cq, attr)
+            rd = ReachingDefs(g)
+            bad = []
+            if not rel:
+                bad.append('no path closes self.%s' % attr)
+            else:
+                # the flags that may excuse a path: fields written with constants only, set true in close() only
+                for l in path_conditions(R, g, rd, g.entry, g.exit, avoid=tuple(rel)):
+                    excused = False
+                    for (t_, p_) in l:
+                        if not (t_.startswith('self.') and p_ and t_[5:].isidentifier()):
+                            continue
+                        fld = t_[5:]
+                        st = [(c_, s_, v_) for (c_, s_, tt, v_) in stores_in_package(R, fld)
+                              if c_.func.cls is not None and c_.func.cls.qual in R.prog.mro(cq)]
+                        if st and all(isinstance(v_, ast.Constant) and isinstance(v_.value, bool) for (_, _, v_) in st) and all(
+                                c_.func.name in ('close', '_release') for (c_, _, v_) in st if v_.value is True):
+                            excused = True
+                    if not excused:
+                        bad.append(sorted(l))
+            R.ob(RID, '%s.close() releases self.%s' % (cq.split('.')[-1], attr), not bad,
+                 '%s.close() can return without closing the kernel object in self.%s: %s - run() closes the socket before the '
+                 'selector, so a test on the socket\'s state skips the release and the descriptor stays open' % (
+                     cq, attr, bad[:1]), func=cm, node=None, construct='%s.close releases %s' % (cq, attr))
+    need(n_owned >= 1, 'no selector class owning a kernel object found (KQueueSelector expected)')
 
 
 def exit_(R):
